@@ -174,6 +174,15 @@ def make(interp):
         if axis is None and not isinstance(x, SArr): return arr_from_list([x] * _ci(reps))
         raise Unsupported("np.repeat on arrays (bounded-only: Mirjalili event space)")
     jnp["tile"] = B(tile)
+    def cumprod(x):
+        xs = interp.iterate(A.from_value(x)); out = []; acc = 1
+        for v in xs: acc = interp.binop("Mult", acc, v); out.append(acc)
+        return arr_from_list(out)
+    def append(a, v): return A.concat([A.from_value(a), A.from_value(v) if isinstance(v, (list, tuple, SArr)) else arr_from_list([v])], 0)
+    class _R:                      # np.r_[a, b, ...]: concatenation of scalars and 1-D arrays
+        pass
+    r_obj = Obj("np.r_", {}, label="np.r_")
+    jnp["cumprod"] = B(cumprod); jnp["append"] = B(append); jnp["r_"] = {"__r__": True}
     np = dict(jnp)
     np["log10"] = B(log10); np["floor"] = B(floor)
     def dynamic_slice_in_dim(operand, start_index, slice_size, axis=0):
